@@ -56,11 +56,14 @@ def dedent (value : List Char) : List Char :=
     let l' := l.drop m
     if l'.isEmpty then [] else l' ++ ['\n']
 
-/-- `line.replace("*/", "*\\/")` -/
+def startsSlash : List Char → Bool
+  | [] => false
+  | c :: _ => c == '/'
+
+/-- `line.replace("*/", "*\\/")` (leftmost, non-overlapping): a `*` that is followed by `/` gets a backslash after it -/
 def escapeClose : List Char → List Char
-  | '*' :: '/' :: rest => '*' :: '\\' :: '/' :: escapeClose rest
-  | c :: rest => c :: escapeClose rest
   | [] => []
+  | c :: rest => if c == '*' && startsSlash rest then '*' :: '\\' :: escapeClose rest else c :: escapeClose rest
 
 /-- the lines written between `/**` and ` */` (each after " * ") -/
 def docLinesC (d : List Char) : List (List Char) := (lines (dedent d)).map escapeClose
@@ -76,9 +79,8 @@ def comment (d : List Char) : List Char := ['/', '*', '*'] ++ commentBody d ++ [
 
 /-- does the text contain the two characters `*/` next to each other? -/
 def hasClose : List Char → Bool
-  | '*' :: '/' :: _ => true
-  | _ :: r => hasClose r
   | [] => false
+  | c :: r => (c == '*' && startsSlash r) || hasClose r
 
 /-- `make_ts_description` (schema_type_printer/type_printer.rs): description and deprecation reason -/
 def fieldDescription (desc : Option String) (deprecation : Option String) : Option String :=
